@@ -5,7 +5,13 @@
    state  st = [rs |-> sequence of responders (index = identity, creation order),
                 ord |-> sequence of responder indices: the enabled ones in registration (enable) order]
    responder [path, kind ("exact" | "matching"), src [h, p] (0 = any), rport (0 any, 1 main, 2 extra),
-              tmpl <<item>>, en, os (one-shot armed), freed, perm, fn (tag of the current function)]
+              tmpl <<item>>, en, os (one-shot armed), freed, perm, fn (tag of the current function),
+              beh (what the current function does when invoked), cnt (how often it has been invoked)]
+   behaviour [rk |-> k: the function RAISES on its k-th invocation (0: never),
+              acts |-> <<[op |-> "free" | "disable" | "enable", i |-> responder]>>: what it does to responders
+              (itself included) from inside the callback, before it returns or raises]
+   A fault in a callback is invisible to everybody else: the exception does not reach the receiver,
+   later responders of the same delivery still fire, a one-shot that raised is spent all the same.
    template item  [k |-> "any"] | [k |-> "eq", v |-> token] | [k |-> "gt", n |-> int]   (a predicate: int > n)
    message  [tag (8 bytes, <<>> = bare message), a (address bytes), args (tokens of Osc.tla)]     *)
 EXTENDS OscMatch, Osc
@@ -27,22 +33,12 @@ Accepts(r, m, src, via) ==
 Fire(st, m, src, via) == SelectSeq(st.ord, LAMBDA i : Accepts(st.rs[i], m, src, via))
 Entry(st, i, m, src, via) == [r |-> i, fn |-> st.rs[i].fn, a |-> m.a, args |-> m.args, src |-> src, via |-> via, tm |-> m.tag]
 Without(s, X) == SelectSeq(s, LAMBDA i : i \notin X)
-\* a one-shot responder frees itself when it fires
-AfterFire(st, fired) ==
-    LET X == {fired[k] : k \in {k \in 1..Len(fired) : st.rs[fired[k]].os}} IN
-    [rs |-> [i \in 1..Len(st.rs) |-> IF i \in X THEN [st.rs[i] EXCEPT !.freed = TRUE, !.en = FALSE] ELSE st.rs[i]],
-     ord |-> Without(st.ord, X)]
-\* deliver the messages of one datagram one after the other: [st, log]
-RECURSIVE Deliver(_, _, _, _, _, _)
-Deliver(st, msgs, k, src, via, log) ==
-    IF k > Len(msgs) THEN [st |-> st, log |-> log]
-    ELSE LET f == Fire(st, msgs[k], src, via) IN
-         Deliver(AfterFire(st, f), msgs, k + 1, src, via,
-                 log \o [n \in 1..Len(f) |-> Entry(st, f[n], msgs[k], src, via)])
+ToSet(s) == {s[k] : k \in 1..Len(s)}
+Quiet == [rk |-> 0, acts |-> <<>>]
 
 (* ---- operations other than Recv ---- *)
 NewResp(e) == [path |-> e.path, kind |-> e.kind, src |-> e.src, rport |-> e.rport, tmpl |-> e.tmpl,
-               en |-> TRUE, os |-> e.os, freed |-> FALSE, perm |-> FALSE, fn |-> 0]
+               en |-> TRUE, os |-> e.os, freed |-> FALSE, perm |-> FALSE, fn |-> 0, beh |-> e.beh, cnt |-> 0]
 Upd(st, i, r) == [st EXCEPT !.rs[i] = r]
 OpCreate(st, e) == [rs |-> Append(st.rs, NewResp(e)), ord |-> Append(st.ord, Len(st.rs) + 1)]
 OpEnable(st, i) == IF st.rs[i].en THEN st
@@ -52,7 +48,7 @@ OpDisable(st, i) == IF ~st.rs[i].en THEN st
 OpFree(st, i) == [rs |-> [st.rs EXCEPT ![i].en = FALSE, ![i].freed = TRUE], ord |-> Without(st.ord, {i})]
 OpOneShot(st, i) == [st EXCEPT !.rs[i].os = TRUE]
 \* replacing the function keeps the responder's place; the one-shot wrapper is replaced too
-OpSetFunc(st, i, fn) == [st EXCEPT !.rs[i].fn = fn, !.rs[i].os = FALSE]
+OpSetFunc(st, i, fn, beh) == [st EXCEPT !.rs[i].fn = fn, !.rs[i].os = FALSE, !.rs[i].beh = beh, !.rs[i].cnt = 0]
 OpSetPerm(st, i, b) == [st EXCEPT !.rs[i].perm = b]
 OpCmdPeriod(st) ==
     LET X == {i \in 1..Len(st.rs) : st.rs[i].en /\ ~st.rs[i].perm} IN
@@ -64,9 +60,37 @@ Apply(st, e) ==
       [] e.op = "disable" -> OpDisable(st, e.i)
       [] e.op = "free" -> OpFree(st, e.i)
       [] e.op = "oneshot" -> OpOneShot(st, e.i)
-      [] e.op = "setfunc" -> OpSetFunc(st, e.i, e.fn)
+      [] e.op = "setfunc" -> OpSetFunc(st, e.i, e.fn, e.beh)
       [] e.op = "setperm" -> OpSetPerm(st, e.i, e.b)
       [] e.op = "cmdperiod" -> OpCmdPeriod(st)
+
+(* ---- what invoking a responder's function does ---- *)
+ActApply(st, a) == IF a.i \notin 1..Len(st.rs) THEN st
+                   ELSE CASE a.op = "free" -> OpFree(st, a.i) [] a.op = "disable" -> OpDisable(st, a.i)
+                          [] a.op = "enable" -> OpEnable(st, a.i)
+RECURSIVE ActsApply(_, _, _)
+ActsApply(st, acts, k) == IF k > Len(acts) THEN st ELSE ActsApply(ActApply(st, acts[k]), acts, k + 1)
+\* this invocation is the one on which the function raises
+Raises(r) == r.beh.rk = r.cnt + 1
+\* responder i is invoked: a one-shot is spent first (whether or not the function then raises), then the
+\* function's own actions happen; raising changes nothing else
+Invoke(st, i) ==
+    LET s1 == [st EXCEPT !.rs[i].cnt = @ + 1]
+        s2 == IF st.rs[i].os THEN OpFree(s1, i) ELSE s1 IN
+    ActsApply(s2, st.rs[i].beh.acts, 1)
+
+\* One legal delivery (used by the design model): the responders accepted when the message arrives all
+\* fire, in registration order, whatever the callbacks do to each other meanwhile ("firing one responder
+\* never removes another from the current delivery"); responders enabled meanwhile wait for the next message.
+RECURSIVE FireAll(_, _, _, _, _, _, _)
+FireAll(st, F, n, m, src, via, log) ==
+    IF n > Len(F) THEN [st |-> st, log |-> log]
+    ELSE FireAll(Invoke(st, F[n]), F, n + 1, m, src, via, Append(log, Entry(st, F[n], m, src, via)))
+RECURSIVE Deliver(_, _, _, _, _, _)
+Deliver(st, msgs, k, src, via, log) ==
+    IF k > Len(msgs) THEN [st |-> st, log |-> log]
+    ELSE LET x == FireAll(st, Fire(st, msgs[k], src, via), 1, msgs[k], src, via, <<>>) IN
+         Deliver(x.st, msgs, k + 1, src, via, log \o x.log)
 
 (* ---- classification of a datagram for the receiver ---- *)
 NonAscii(s) == \E i \in 1..Len(s) : s[i] >= 128
@@ -85,26 +109,75 @@ Class(d, st) ==
          ELSE IF \E j, k \in 1..Len(ms) : j < k /\ LexLess(ms[k].tag, ms[j].tag) THEN "grey"
          ELSE "good"
 
-(* ---- comparing an observed delivery log with the expected one ---- *)
-Key(st, x) == <<x.a, x.args, st.rs[x.r].path, st.rs[x.r].kind>>
-Proj(st, log, key) == SelectSeq(log, LAMBDA x : Key(st, x) = key)
-Strip(x) == [r |-> x.r, fn |-> x.fn, a |-> x.a, args |-> x.args, src |-> x.src, via |-> x.via]
-StripAll(log) == [k \in 1..Len(log) |-> Strip(log[k])]
-\* first failing clause of "exactly those, each once, in registration order, with message/sender/port"
-LogWhy(st, obs, exp) ==
-    LET O == StripAll(obs)  E == StripAll(exp) IN
-    IF \E k \in 1..Len(O) : O[k].r \notin 1..Len(st.rs) THEN "UnknownResponder"
-    ELSE IF \E k \in 1..Len(O) : st.rs[O[k].r].freed THEN "FreedNeverFires"
-    ELSE IF \E k \in 1..Len(O) : ~st.rs[O[k].r].en THEN "DisabledNeverFires"
-    ELSE IF \E k \in 1..Len(O) : Count(O, O[k]) > Count(E, O[k]) /\ Count(E, O[k]) >= 1 THEN "EachOnce"
-    ELSE IF \E k \in 1..Len(O) : Count(E, O[k]) = 0 THEN
-         (LET k == CHOOSE k \in 1..Len(O) : Count(E, O[k]) = 0 IN
-          IF \E j \in 1..Len(E) : E[j].r = O[k].r /\ E[j].a = O[k].a /\ E[j].args = O[k].args THEN "CallbackArguments"
-          ELSE "ShouldNotFire")
-    ELSE IF \E k \in 1..Len(E) : Count(O, E[k]) < Count(E, E[k]) THEN "ShouldFire"
-    ELSE IF \E k \in 1..Len(E) : Proj(st, O, Key(st, E[k])) # Proj(st, E, Key(st, E[k])) THEN "OrderIsRegistrationOrder"
-    ELSE IF \E k \in 1..Len(obs) : \A j \in 1..Len(exp) :
-                Strip(exp[j]) = Strip(obs[k]) => (exp[j].tm # <<>> /\ exp[j].tm # Immediately /\ exp[j].tm # obs[k].tm)
-         THEN "CallbackTime"
+(* ---- judging an observed delivery ---- *)
+(* What L1 demands of the invocations observed for ONE message m (seg = the callbacks that ran, in order):
+     - only responders accepted when the message arrived (F) may fire - or ones that a callback of this very
+       delivery enabled and that accept the message (either is fine: the statement does not say);
+     - each at most once; with the message, sender, port, current function (and time, where comparable);
+     - every responder of F fires, unless a callback of this delivery disabled or freed it - then either is
+       fine, except when that callback belongs to a responder registered later on the same path of the same
+       dispatcher (then it had its turn before);
+     - responders on the same path of the same dispatcher fire in registration order.
+   The state afterwards is the state reached by the invocations that really happened.                  *)
+SameKey(st0, x, y) == st0.rs[x].path = st0.rs[y].path /\ st0.rs[x].kind = st0.rs[y].kind
+Pos(F, x) == CHOOSE n \in 1..Len(F) : F[n] = x
+First(a, b) == IF a = "ok" THEN b ELSE a
+EntryWhy(w, st0, F, e, m, src, via, tag) ==
+    LET r == e.r  cur == w.st IN
+    IF r \in ToSet(w.fired) THEN "EachOnce"
+    ELSE IF r \notin ToSet(F) /\ ~(r \in w.enabled /\ Accepts(cur.rs[r], m, src, via)) THEN
+         (IF st0.rs[r].freed THEN "FreedNeverFires" ELSE IF ~st0.rs[r].en THEN "DisabledNeverFires" ELSE "ShouldNotFire")
+    ELSE IF e.fn # cur.rs[r].fn \/ e.a # m.a \/ e.args # m.args \/ e.src # src \/ e.via # via THEN "CallbackArguments"
+    ELSE IF tag # <<>> /\ tag # Immediately /\ e.tm # tag THEN "CallbackTime"
     ELSE "ok"
+RECURSIVE Walk(_, _, _, _, _, _, _, _, _)
+\* w = [st, fired, kills, enabled, why, raised, acted]
+Walk(w, st0, F, seg, k, m, src, via, tag) ==
+    IF k > Len(seg) THEN w
+    ELSE LET e == seg[k]  r == e.r IN
+         IF r \notin 1..Len(w.st.rs) THEN [w EXCEPT !.why = First(@, "UnknownResponder")]
+         ELSE LET rr == w.st.rs[r]  acts == rr.beh.acts IN
+              Walk([st |-> Invoke(w.st, r), fired |-> Append(w.fired, r),
+                    kills |-> w.kills \cup {<<r, acts[j].i>> : j \in {j \in 1..Len(acts) : acts[j].op \in {"free", "disable"}}},
+                    enabled |-> w.enabled \cup {acts[j].i : j \in {j \in 1..Len(acts) : acts[j].op = "enable"}},
+                    why |-> First(w.why, EntryWhy(w, st0, F, e, m, src, via, tag)),
+                    raised |-> w.raised \/ Raises(rr), acted |-> w.acted \/ acts # <<>>],
+                   st0, F, seg, k + 1, m, src, via, tag)
+\* one message: [st, why, raised, acted]
+JudgeMsg(st0, m, src, via, tag, seg) ==
+    LET F == Fire(st0, m, src, via)
+        w == Walk([st |-> st0, fired |-> <<>>, kills |-> {}, enabled |-> {}, why |-> "ok", raised |-> FALSE, acted |-> FALSE],
+                  st0, F, seg, 1, m, src, via, tag)
+        fired == ToSet(w.fired)
+        Excused(r) == \E p \in w.kills : p[2] = r /\ ~(p[1] \in ToSet(F) /\ SameKey(st0, p[1], r) /\ Pos(F, r) < Pos(F, p[1]))
+        inF == SelectSeq(w.fired, LAMBDA x : x \in ToSet(F))
+        end == IF \E r \in ToSet(F) : r \notin fired /\ ~Excused(r) THEN "ShouldFire"
+               ELSE IF \E i, j \in 1..Len(inF) : i < j /\ SameKey(st0, inF[i], inF[j]) /\ Pos(F, inF[i]) > Pos(F, inF[j])
+                    THEN "OrderIsRegistrationOrder"
+               ELSE "ok" IN
+    [st |-> w.st, why |-> First(w.why, end), raised |-> w.raised, acted |-> w.acted]
+
+\* the callbacks of one datagram carry a delivery number d (1, 2, ... in order of appearance; one per message
+\* that invoked anything): message k takes the next group if it is about that message
+SegOf(log, d) == SelectSeq(log, LAMBDA x : x.d = d)
+MaxD(log) == IF log = <<>> THEN 0 ELSE log[Len(log)].d
+RECURSIVE JudgeAll(_, _, _, _, _, _, _)
+\* acc = [st, why, at (message at which it failed), raised, acted]
+JudgeAll(acc, msgs, k, d, src, via, log) ==
+    IF k > Len(msgs)
+    THEN IF d <= MaxD(log) THEN [acc EXCEPT !.why = First(@, "CallbackArguments")] ELSE acc     \* invocations about no message
+    ELSE LET m == msgs[k]
+             g == SegOf(log, d)
+             mine == d <= MaxD(log) /\ g # <<>> /\ g[1].a = m.a /\ g[1].args = m.args
+             x == JudgeMsg(acc.st, m, src, via, m.ctag, IF mine THEN g ELSE <<>>) IN
+         JudgeAll([st |-> x.st, why |-> First(acc.why, x.why), at |-> IF acc.why = "ok" /\ x.why # "ok" THEN k ELSE acc.at,
+                   raised |-> IF acc.why = "ok" THEN x.raised ELSE acc.raised, acted |-> IF acc.why = "ok" THEN x.acted ELSE acc.acted],
+                  msgs, k + 1, IF mine THEN d + 1 ELSE d, src, via, log)
+\* msgs: [tag, a, args, ctag] where ctag = the time tag if the callback time can be compared with it, else <<>>
+Judge(st0, msgs, src, via, log) ==
+    JudgeAll([st |-> st0, why |-> "ok", at |-> 0, raised |-> FALSE, acted |-> FALSE], msgs, 1, 1, src, via, log)
+\* no demands (grey / malformed datagrams): just follow what really ran
+RECURSIVE Follow(_, _, _)
+Follow(st, log, k) == IF k > Len(log) THEN st
+                      ELSE Follow(IF log[k].r \in 1..Len(st.rs) THEN Invoke(st, log[k].r) ELSE st, log, k + 1)
 =============================================================================
